@@ -8,7 +8,7 @@ checks, na = [], []
 na_file = json.load(open(os.path.join(ROOT, "tools", "not_applicable.json")))
 for pid in props:
     path = os.path.join(ROOT, "checks", pid + ".py")
-    if os.path.exists(path) and pid not in na_file.get("withdrawn", {}):
+    if os.path.exists(path) and pid in na_file.get("ready", []) and pid not in na_file.get("withdrawn", {}):
         M = importlib.import_module("checks." + pid).META
         checks.append({
             "property_id": pid,
